@@ -39,6 +39,9 @@ func main() {
 		for _, p := range props.All() {
 			fmt.Printf("%s  %s\n", p.ID, p.Title)
 		}
+	case "dbg-facts":
+		// dbg-facts <pkg-suffix> <recv> <fn> <call>
+		dbgFacts(envOr("NPVERIF_REPO", "/repo"), core.ModPath+"/"+os.Args[2], os.Args[3], os.Args[4], os.Args[5])
 	case "warm":
 		if _, err := core.Load(envOr("NPVERIF_REPO", "/repo"), nil); err != nil {
 			fmt.Fprintln(os.Stderr, "warm:", err)
